@@ -76,7 +76,7 @@ let check inp obs0 =
   let rec go st prev k = function
     | [] -> ()
     | s :: r ->
-      let (st1, res) = exec hh true fd fg st s in
+      let (st1, res) = exec hh true fd st s in
       Buffer.add_char buf ' ';
       (match res with
        | ROk ->
